@@ -135,6 +135,23 @@ func (m *Machine) bigDivMod(x, y *smt.Term, trunc bool) (*smt.Term, *smt.Term) {
 		}
 		return q, smt.ISub(x, smt.IMul(q, y))
 	}
+	// bv mode, constant divisor and a dividend only a few bits longer: x = q*y + r with Skolem q (few bits), r < y
+	if y.IsConst() && !x.IsConst() && y.BigVal().Sign() > 0 {
+		xb, yb := bvUpperBits(x), y.BigVal().BitLen()
+		if xb < m.bigW() && xb-yb+1 <= 3 && xb-yb+1 >= 1 {
+			qbits := xb - yb + 1
+			q := m.skolemBV("q", qbits)
+			r := m.skolemBV("r", m.bigW())
+			sum := r
+			for i := 0; i < qbits; i++ {
+				part := smt.Ite(smt.Eq(smt.Extract(q, i, i), smt.BVConst(1, 1)), m.bigConst(new(big.Int).Lsh(y.BigVal(), uint(i))), m.bigConst(big.NewInt(0)))
+				sum = smt.BvAdd(sum, part)
+			}
+			// no overflow possible: r < y < 2^yb and q*y < 2^(xb+1) < 2^BigW
+			m.assumeRaw(smt.And(smt.Eq(x, sum), smt.BvUlt(r, y)))
+			return smt.Zext(q, m.bigW()-qbits), r
+		}
+	}
 	// bv mode: only non-negative operands supported
 	if !m.bigNonNegKnown(x) || !m.bigNonNegKnown(y) {
 		zero := m.bigConst(big.NewInt(0))
@@ -486,4 +503,36 @@ func init() {
 		return TupleVal{a[0], smt.True}
 	})
 	_ = token.ADD
+}
+
+// bvUpperBits: an upper bound on the number of significant bits of a non-negative BV term.
+func bvUpperBits(t *smt.Term) int {
+	w := t.Sort.W
+	switch t.Op {
+	case smt.OConst:
+		return t.BigVal().BitLen()
+	case smt.OConcat:
+		if t.Args[0].IsConst() && t.Args[0].BigVal().Sign() == 0 {
+			rest := 0
+			for _, a := range t.Args[1:] {
+				rest += a.Sort.W
+			}
+			return rest
+		}
+	case smt.OBvAdd:
+		a, b := bvUpperBits(t.Args[0]), bvUpperBits(t.Args[1])
+		if b > a {
+			a = b
+		}
+		if a+1 < w {
+			return a + 1
+		}
+	case smt.OIte:
+		a, b := bvUpperBits(t.Args[1]), bvUpperBits(t.Args[2])
+		if b > a {
+			a = b
+		}
+		return a
+	}
+	return w
 }
